@@ -48,6 +48,11 @@ def cases(tier, seed):
             for ci in (1, 5):
                 yield dict(slabs=[list(c) for c in combo], cfg=ci, fs=k % 3)
                 k += 1
+    # halo light-cone layout with every row mask (slice contents only: that format is not re-indexed)
+    lcv = [(0, 0), (1, 0), (2, 1), (1, 1)]
+    for n in range(1, 4):
+        for combo in itertools.product(range(len(lcv)), repeat=n):
+            yield dict(lc=True, kind='lc', halos=[lcv[i] for i in combo])
     yield dict(negative=True)
 
 
@@ -113,6 +118,11 @@ def run(case):
     import traceback
     if case.get('negative'):
         return run_negative()
+    if case.get('lc'):
+        c01._ENV = _ENV
+        r = c01.run_lc(case, with_masks=True)
+        r['nt'] = [('lc', case['halos'])]
+        return r
     A = alphabet()
     slabs = [[A[i] for i in s] for s in case['slabs']]
     cat = catgen.Catalog(slabs)
